@@ -563,7 +563,8 @@ fn corpus(args: &Args) -> i32 {
     let batch: usize = args.num("batch", 24);
     let mut out = Out::new(args.str("out"));
     let mut files: Vec<std::path::PathBuf> = vec![];
-    for sub in ["computer-modern", "ctan"] {
+    let subs = args.str("subdirs").unwrap_or("computer-modern,ctan,originals,fuzz").to_string();
+    for sub in subs.split(',') {
         if let Ok(rd) = std::fs::read_dir(std::path::Path::new(dir).join(sub)) {
             for e in rd.flatten() {
                 let p = e.path();
@@ -587,9 +588,18 @@ fn corpus(args: &Args) -> i32 {
                 if !warnings.is_empty() {
                     return None;
                 }
-                // fonts TeX itself would load: no validation warnings
+                // fonts TeX itself would load: no validation warnings, except that TeX does not
+                // look for infinite ligature loops when it loads a font
                 let mut probe = file.clone();
-                if !probe.validate_and_fix().is_empty() {
+                let only_loops = probe.validate_and_fix().iter().all(|w| {
+                    matches!(
+                        w,
+                        tfm::ValidationWarning::LigKernWarning(
+                            tfm::ligkern::lang::ValidationWarning::InfiniteLoop(_)
+                        )
+                    )
+                });
+                if !only_loops {
                     return None;
                 }
                 let exists: BTreeSet<u8> = file.char_dimens.keys().map(|c| c.0).collect();
